@@ -76,6 +76,8 @@ def install_process(knobs=None):
     aq.Thread = _NoThread
     import logging
     logging.disable(logging.CRITICAL)
+    import warnings
+    warnings.simplefilter("ignore")
 
 
 def activate(sim):
